@@ -7,7 +7,11 @@ import (
 	"net"
 	"os"
 	"path/filepath"
+	"strconv"
+	"strings"
 	"sync"
+	"sync/atomic"
+	"syscall"
 	"time"
 
 	"github.com/nats-io/nats.go"
@@ -26,21 +30,88 @@ type busServer struct {
 	halt       func() // stop without removing the store file
 	haltWithin func(time.Duration) bool
 	stopped    chan struct{}
+	halted     int32 // set before the harness stops the instance itself
 }
 
-func freePort() int {
-	l, err := net.Listen("tcp", "127.0.0.1:0")
-	if err != nil {
-		panic(err)
+// busDeaths counts the instances whose Run returned although the harness had not stopped them (a listener that could not
+// bind, a server that gave up, ...). A case during which the count changes is run again on fresh instances (main.go): what
+// it observed is the death of the instance, not the behaviour under test. A death that repeats is reported as observed.
+var busDeaths int64
+
+// Ports. Every harness process claims a window of 400 ports below the kernel's ephemeral range (a lock file in the
+// store directory's parent, stale locks of dead processes are taken over) and hands its ports out in rotation, probing each
+// by binding it. Kernel-assigned ports (listen on :0, close, bind later) were a race between harness processes running side
+// by side: another process could be given the port between the probe and the server's bind; the HTTP listener of the
+// instance then failed, the instance shut itself down a few milliseconds after a successful start, and the case under way
+// saw "nats: connection closed" (one case in 6000 with three harness processes on the machine).
+var portMu sync.Mutex
+var portBase, portNext int
+var portInit bool
+
+const portWindow = 400
+
+func claimPortWindow() int {
+	dir := filepath.Join(os.TempDir(), "siot-verif-ports")
+	if st, err := os.Stat("/dev/shm"); err == nil && st.IsDir() {
+		dir = "/dev/shm/siot-verif-ports"
 	}
-	defer l.Close()
-	return l.Addr().(*net.TCPAddr).Port
+	if os.MkdirAll(dir, 0o777) != nil {
+		return 0
+	}
+	const windows = 45 // 12000 .. 29999
+	for w := 0; w < 2*windows; w++ {
+		idx := (os.Getpid() + w) % windows
+		f := filepath.Join(dir, fmt.Sprintf("w%02d", idx))
+		fd, err := os.OpenFile(f, os.O_CREATE|os.O_EXCL|os.O_WRONLY, 0o666)
+		if err == nil {
+			fmt.Fprint(fd, os.Getpid())
+			fd.Close()
+			return 12000 + idx*portWindow
+		}
+		b, _ := os.ReadFile(f)
+		pid, _ := strconv.Atoi(strings.TrimSpace(string(b)))
+		stale := false
+		if pid > 0 {
+			stale = syscall.Kill(pid, 0) == syscall.ESRCH
+		} else if st, err := os.Stat(f); err == nil {
+			stale = time.Since(st.ModTime()) > 10*time.Second
+		}
+		if stale {
+			os.Remove(f) // the next round may take it (or another process does: O_EXCL decides)
+		}
+	}
+	return 0
 }
 
-// freePorts returns n distinct free ports (all listeners are held until every port has been chosen).
+func freePort() int { return freePorts(1)[0] }
+
+// freePorts returns n distinct ports that could be bound just now, from this process's own window.
 func freePorts(n int) []int {
-	var ls []net.Listener
+	portMu.Lock()
+	defer portMu.Unlock()
+	if !portInit {
+		portInit = true
+		portBase = claimPortWindow()
+	}
 	var ps []int
+	if portBase != 0 {
+		for tries := 0; len(ps) < n && tries < 4*portWindow; tries++ {
+			p := portBase + portNext%portWindow
+			portNext++
+			l, err := net.Listen("tcp", fmt.Sprintf(":%d", p))
+			if err != nil {
+				continue
+			}
+			l.Close()
+			ps = append(ps, p)
+		}
+		if len(ps) == n {
+			return ps
+		}
+		ps = nil
+	}
+	// no window could be claimed: kernel-assigned ports (all listeners are held until every port has been chosen)
+	var ls []net.Listener
 	for i := 0; i < n; i++ {
 		l, err := net.Listen("tcp", "127.0.0.1:0")
 		if err != nil {
@@ -97,15 +168,19 @@ func busStartOpts(o server.Options, clients func(nc *nats.Conn) []client.RunStop
 		}
 	}
 	stopped := make(chan struct{})
+	b := &busServer{nc: nc, opts: o, stopped: stopped}
 	go func() {
 		_ = s.Run()
+		if atomic.LoadInt32(&b.halted) == 0 {
+			atomic.AddInt64(&busDeaths, 1)
+		}
 		close(stopped)
 	}()
 	ctx, cancel := context.WithTimeout(context.Background(), 10*time.Second)
 	err = s.WaitStart(ctx)
 	cancel()
-	b := &busServer{nc: nc, opts: o, stopped: stopped}
 	b.halt = func() {
+		atomic.StoreInt32(&b.halted, 1)
 		s.Stop(nil)
 		select {
 		case <-stopped:
@@ -113,6 +188,7 @@ func busStartOpts(o server.Options, clients func(nc *nats.Conn) []client.RunStop
 		}
 	}
 	b.haltWithin = func(d time.Duration) bool {
+		atomic.StoreInt32(&b.halted, 1)
 		s.Stop(nil)
 		select {
 		case <-stopped:
